@@ -442,9 +442,8 @@ def run(world, tier, info, only=None):
     ck.floor("R7", "writes to state.out outside the flush/break/comment helpers", n7, 4)
     cursor_obligations(ck, w)
     n_rel = 0
-    for fnm in ("render_frame", "emit_anchored", "render_comments"):
-        n_rel += relative_advance_guarded(ck, "R8", w, M + fnm, r"render::State$", "col", fnm)
-    ck.floor("R8", "relative text advances of state.col", n_rel, 3)
+    n_rel = relative_advances(ck, "R8", w)
+    ck.floor("R8", "relative text advances of state.col", n_rel, 1)
     # the IfBreak payload is only ever a single-line literal
     n_ib = 0
     for q, sq in sorted(w.fns.items()):
@@ -463,6 +462,32 @@ def run(world, tier, info, only=None):
     n_col = col_units(ck, w)
     ck.analysed = {"functions": [M + n for n in need], "doc_variants": variants, "col_writes": n_col}
     return ck.finish(info)
+
+
+def relative_advances(ck, R, w):
+    """every function of veryl_pretty::render (helpers included, wherever the advance was moved to)"""
+    n = 0
+    for p, x in sorted(w.fns.items()):
+        if not p.startswith(M) or x.get("alias_of") or "::tests::" in p or "{" in p[len(M):]:
+            continue
+        n += relative_advance_guarded(ck, R, w, p, r"render::State$", "col", p.split("::")[-1])
+    return n
+
+
+def _nl_probe(e, out):
+    """collect the pattern operand of every matches/find/rfind/split_once/rsplit_once call in a described expression"""
+    if isinstance(e, tuple):
+        if len(e) >= 3 and e[0] == "call" and isinstance(e[1], str) and re.search(r"<impl str>::(matches|rfind|find|rsplit_once|split_once|rmatches|contains)$", e[1]) \
+                and isinstance(e[2], tuple) and len(e[2]) >= 2:
+            out.append(e[2][1])
+        for y in e:
+            _nl_probe(y, out)
+    return out
+
+
+def _probes_newline_char(e):
+    pats = _nl_probe(e, [])
+    return bool(pats) and all(pt == ("const", 10) or pt == ("const", "\n") for pt in pats)
 
 
 # ------------------------------------------------------------------ a relative advance needs a text without line breaks
@@ -485,7 +510,7 @@ def relative_advance_guarded(ck, R, w, p, adt_rx, field, label):
         n += 1
         S = mf.state_at(bi, si)
         fx = sem.facts(S[0]) if S else ()
-        ok = False
+        ok = wrong_probe = False
         # separators: Doc::Line holds a &'static str chosen by the builders; Doc::IfBreak's callers are checked in R8 (single-line literals)
         m_sep = re.search(r"'v', '(Line|IfBreak)'", d) or re.search(r"\('(Line|IfBreak)'", d)
         if m_sep:
@@ -493,13 +518,22 @@ def relative_advance_guarded(ck, R, w, p, adt_rx, field, label):
                   "the text is the separator payload of Doc::%s (a literal without line breaks, see if_break-texts-are-single-line)" % m_sep.group(1))
             continue
         for x in fx:
+            # the probe must look for the line-feed character itself: a text can hold '\n' whatever the configured newline string is
             if x[0] == "cmp" and len(x) >= 5 and "matches" in repr(x[2]) and "count" in repr(x[2]) and repr(x[3]) in ("('const', 0)",):
                 if (x[1], x[4]) in (("Gt", False), ("Le", True), ("Eq", True), ("Ne", False), ("Lt", True)) or (x[1] == "Ge" and False):
-                    ok = True
+                    if _probes_newline_char(x[2]):
+                        ok = True
+                    else:
+                        wrong_probe = True
             if x[0] == "isvariant" and x[2] == "None" and re.search(r"rfind|find|rsplit_once|split_once", repr(x[1])):
-                ok = True
+                if _probes_newline_char(x[1]):
+                    ok = True
+                else:
+                    wrong_probe = True
         ck.ob(R, "relative-advance-needs-single-line:%s@%d" % (label, n), ok, site(sm, st[3]),
               "the column is advanced by the text's character count only where the text has no line break" if ok else
+              "the single-line test that guards this relative advance does not look for the '\\n' character (it searches for another pattern, e.g. the "
+              "configured newline string): a text holding a bare line feed is then counted as one line" if wrong_probe else
               "the column is advanced relatively (old column + characters of the text) on a path where the text may contain a line break: after a "
               "multi-line token the cursor is too far right and what follows on the line is placed (or mapped) wrongly")
     return n
@@ -526,6 +560,42 @@ def col_units(ck, w, R6="R6", floor=True):
     if floor:
         ck.floor(R6, "writes to state.col", n_col, 10)
     return n_col
+
+
+_CW = {}
+
+
+def col_writers(w):
+    """render helpers with a `state` parameter that write state.col on every path to their return (directly or through another such
+    helper): a call `advance_over(state, text)` after a write is the cursor update of that write"""
+    key = id(w)
+    if key in _CW:
+        return _CW[key]
+    cw = set()
+    fns = {p: x for p, x in w.fns.items() if p.startswith(M) and not x.get("alias_of") and "::tests::" not in p and "{" not in p[len(M):]}
+    cache = {}
+    changed = True
+    while changed:
+        changed = False
+        for p, x in sorted(fns.items()):
+            if p in cw:
+                continue
+            g = cache.get(p)
+            if g is None:
+                g = cache[p] = Fn(w.mir(p))
+            an = {g.name(i): i for i in range(1, g.nargs + 1)}
+            if "state" not in an:
+                continue
+            gates = {bi for bi, _, _ in flow.field_writes(g, r"render::State$", "col")}
+            for bi, t in g.calls():
+                if (t.get("callee") or "") in cw and any(flow.access_path(g, a) == (("arg", an["state"]), ()) for a in t["args"] if a[0] != "k"):
+                    gates.add(bi)
+            if gates and not flow.escapes(g, 0, sorted(gates)):
+                cw.add(p)
+                changed = True
+    _CW.clear()
+    _CW[key] = cw
+    return cw
 
 
 # ------------------------------------------------------------------ the cursor follows the text (R8 + R9)
@@ -584,7 +654,10 @@ def cursor_obligations(ck, w, R8="R8", R9="R9", floors=True):
                       "break of that text are on the current line, so every anchor recorded later on this line is too far left" %
                       {"TEXT": "not the newline", "MIXED": "not the newline on some path", "NONE": "unknown (nothing written in this function)"}[last])
         # ---- R9: a write is followed by a cursor update
-        NLH = [bi for bi, t in g.calls("^" + re.escape(M) + "(emit_break)$")]
+        cws = col_writers(w)
+        NLH = [bi for bi, t in g.calls() if (t.get("callee") or "") == M + "emit_break" or
+               ((t.get("callee") or "") in cws and (t.get("callee") or "") != p and
+                any(flow.access_path(g, a) == (("arg", a_state), ()) for a in t["args"] if a[0] != "k"))]
         gates = sorted({bi for bi, _, _ in colw} | set(NLH))
         for bi, t, pay in ow:
             n9 += 1
